@@ -8,6 +8,8 @@ import (
 	"fmt"
 	"math/big"
 	"os"
+	"sync"
+	"sync/atomic"
 
 	"github.com/tonkeeper/tongo/boc"
 
@@ -711,8 +713,27 @@ func nested(bitsv []bool, skip int) boc.BitString {
 }
 
 func sectionRandom() {
-	nseq := R.N(6000, 200000)
-	for i := 0; i < nseq; i++ {
+	nseq := R.N(6000, 2000000)
+	var wg sync.WaitGroup
+	var next int64 = -1
+	for g := 0; g < 16; g++ {
+		wg.Add(1)
+		go func() {
+			defer wg.Done()
+			for {
+				i := int(atomic.AddInt64(&next, 1))
+				if i >= nseq {
+					return
+				}
+				randomSequence(i)
+			}
+		}()
+	}
+	wg.Wait()
+}
+
+func randomSequence(i int) {
+	{
 		rng := R.Rng("seq", i)
 		kind := rng.Intn(3)
 		capacity := 1023
@@ -763,7 +784,7 @@ func sectionRandom() {
 				viol("content-mismatch@write-sequence/"+t.name, map[string]any{"seq": i, "ops": trace,
 					"got": rb.String(got), "want": rb.String(model.B)})
 				R.Eval("")
-				continue
+				return
 			}
 		} else {
 			// continue the read phase on what is actually there, as long as the prefix was fine
